@@ -74,7 +74,8 @@ def host_is_trusted(hostname: str | None, trusted_list: t.Iterable[str]) -> bool
         try:
             ref = _strip_port(ref)
         except ValueError:
-            return False
+            # Not a usable entry, it can't match. The other entries still can.
+            continue
 
         if ref == hostname or (suffix_match and hostname.endswith(f".{ref}")):
             return True
